@@ -15,10 +15,10 @@ from .common import bump
 ID = "C01"
 AREA = "c01"
 LEAN_PROPS = "Litep2pVerif.Props.C01"
-THEOREMS = ["free_laws", "accept_sound", "reject_missing_key", "reject_missing_sig", "reject_bad_sig",
-            "reject_undecodable_key", "bound_to_session", "bound_to_identity", "dialed_mismatch", "canonical_id",
-            "honest_accepts", "tamper_no_wrong_identity", "honest_identity_binds_static", "tamper_receiver_fails",
-            "tamper_no_connection"]
+THEOREMS = ["free_laws", "honest_payload_accepted", "accept_sound", "reject_missing_key", "reject_missing_sig",
+            "reject_bad_sig", "reject_undecodable_key", "bound_to_session", "bound_to_identity", "dialed_mismatch",
+            "canonical_id", "honest_accepts", "tamper_no_wrong_identity", "tamper_no_wrong_identity_two_sessions",
+            "honest_identity_binds_static", "tamper_receiver_fails", "tamper_no_connection"]
 CONSTS = ["MAX_INLINE_KEY_LENGTH"]
 CONST_TABLE = [
     ("MAX_INLINE_KEY_LENGTH", "src/peer_id.rs", r"const MAX_INLINE_KEY_LENGTH: usize = ([^;]+);", 42),
